@@ -222,8 +222,11 @@ class W3PerDocWriter(base.PerDocWriterWithColumns):
             lenfield = _lenfield(fieldname)
             lb = length_to_byte(length)
             self.add_column_value(lenfield, LENGTHS_COLUMN, lb)
-            # Add length to total field length
-            self._fieldlengths[fieldname] += length
+            # Add length to total field length. Only the length byte survives
+            # in the segment, so count what a reader (and a later merge) will
+            # see for this document: otherwise field_length() of the same
+            # documents depends on how often they have been merged
+            self._fieldlengths[fieldname] += byte_to_length(lb)
 
     def add_vector_items(self, fieldname, fieldobj, items):
         if not items:
